@@ -253,6 +253,9 @@ func (te *tableEngine) batchAddPlayers(players []JoinPlayer) error {
 func (te *tableEngine) playersAutoIn() {
 	// Preparing ready group for waiting all players' join
 	te.rg.Stop()
+	// every round of waiting gets a ready group of its own: the stopped one may still be validating its last
+	// signal on its own goroutine, and adding participants to it meanwhile can deadlock inside the group
+	te.rg = syncsaga.NewReadyGroup()
 	te.rg.SetTimeoutInterval(17)
 	te.rg.OnTimeout(func(rg *syncsaga.ReadyGroup) {
 		// Auto Ready By Default
